@@ -1667,7 +1667,8 @@ def canary_unit(u, seed=None):
         res_text = res_text[:at] + ins + res_text[at:]
         made.append(fid)
     wd = os.path.join(BUILD, u.name)
-    r = run_verus(res_text, wd, u.name + '_canary.rs', seed=seed)
+    # a contradiction, if there is one, is found at once; a canary that merely runs out of resources has failed as it should
+    r = run_verus(res_text, wd, u.name + '_canary.rs', seed=seed, rlimit=3)
     failed_fns = set()
     tool = []
     j = r['json']
